@@ -320,6 +320,14 @@ def run(chk, failed):
     cfgs = [(i, c, a, m) for (i, c, a, m) in retry if c.startswith("cfg ")]
     confirmed = [(i, c, a, m) for (i, c, a, m) in retry if c.startswith("pace ")]
     report_cfg(chk, cfgs, badmi)
+    if confirmed:
+        # a tick is observed through a short real-time window (8 ms + quiescence): re-run once with three times the window
+        confirmed = confirmed[:12]
+        chk.notes.append("%d pace case(s) disagreed on the first run and were re-run with VERIF_GRACE_MULT=3" % len(confirmed))
+        impl2, model2, mism2 = chk.differential("evalloop", "evalloop", "TestVerifProbeEvalloop", [c for _, c, _, _ in confirmed],
+                                                name="evalloop_pace_retry", project=seq_of,
+                                                extra_env={"VERIF_GRACE_MULT": "3"}, timeout=900)
+        confirmed = [(confirmed[j][0], c, a, m) for (j, c, a, m) in mism2]
     if loops:
         chk.notes.append("%d fault sequence(s) disagreed on the first run and were re-run with VERIF_GRACE_MULT=3" % len(loops))
         impl2, model2, mism2 = chk.differential("evalloop", "evalloop", "TestVerifProbeEvalloop", [c for _, c, _, _ in loops],
